@@ -21,7 +21,7 @@ def run(ctx):
     if not ctx.quick:
         cfg = cfg.replace('QuickBits', 'AllBits')
     n = ctx.tlc_vectors('MC_RelayE2E', 'Vec_RelayE2E.cfg', cfgtext=cfg)
-    res = ctx.gotest('e2e', 'TestVerif_C15', tags='verif e2e_testing', also=('net',), timeout=1500)
+    res = ctx.gotest('e2e', 'TestVerif_C15', tags='verif e2e_testing', also=('net',), timeout=600 if ctx.quick else 1500)
     ctx.take_mismatches(res)
     if res.get('actions', {}).get('uncaptured'):
         from tools.check import MachineryError
